@@ -479,6 +479,57 @@ fn main() {
             }
             println!("ok ring area");
         }
+        "linestring_walk" => {
+            use geo::line_measures::InterpolateLine;
+            use geo::Euclidean;
+            use geo_types::{LineString, Point};
+            let ls: LineString<f64> = vec![(0.0, 0.0), (3.0, 0.0), (3.0, 4.0), (0.0, 4.0)].into();
+            // arc-length position on the axis-parallel path 3 + 4 + 3
+            let at = |d: f64| -> (f64, f64) {
+                let d = d.clamp(0.0, 10.0);
+                if d <= 3.0 {
+                    (d, 0.0)
+                } else if d <= 7.0 {
+                    (3.0, d - 3.0)
+                } else {
+                    (10.0 - d, 4.0)
+                }
+            };
+            for d in [-1.0, 0.0, 2.0, 3.0, 5.0, 7.0, 8.5, 10.0, 12.0] {
+                let a = Euclidean.point_at_distance_from_start(&ls, d).unwrap();
+                let b = Euclidean.point_at_distance_from_end(&ls, 10.0 - d).unwrap();
+                let w = at(d);
+                let close = |p: Point<f64>| (p.x() - w.0).abs() < 1e-9 && (p.y() - w.1).abs() < 1e-9;
+                if !close(a) || !close(b) {
+                    fail(format!("distance {d}: from_start {:?}, from_end(10-d) {:?}, expected {:?}", a, b, w));
+                }
+                let r = Euclidean.point_at_ratio_from_start(&ls, d / 10.0).unwrap();
+                if !close(r) {
+                    fail(format!("ratio {}: {:?}, expected {:?}", d / 10.0, r, w));
+                }
+            }
+            let e: LineString<f64> = LineString::new(vec![]);
+            if Euclidean.point_at_distance_from_start(&e, 1.0).is_some() {
+                fail("empty line string must give None".to_string());
+            }
+            println!("ok linestring walk");
+        }
+        "line_closest_point" => {
+            use geo::{Closest, ClosestPoint};
+            use geo_types::Point;
+            let l = Line::new(coord! {x: 1.0, y: 1.0}, coord! {x: 5.0, y: 4.0});
+            let near = |a: Point<f64>, x: f64, y: f64| (a.x() - x).abs() < 1e-9 && (a.y() - y).abs() < 1e-9;
+            let ok = matches!(l.closest_point(&Point::new(0.0, 0.0)), Closest::SinglePoint(c) if near(c, 1.0, 1.0))
+                && matches!(l.closest_point(&Point::new(9.0, 7.0)), Closest::SinglePoint(c) if near(c, 5.0, 4.0))
+                && matches!(l.closest_point(&Point::new(3.0, 2.5)), Closest::Intersection(c) if near(c, 3.0, 2.5))
+                && matches!(l.closest_point(&Point::new(1.0, 1.0)), Closest::Intersection(c) if near(c, 1.0, 1.0))
+                && matches!(l.closest_point(&Point::new(0.0, 7.0)), Closest::SinglePoint(c) if near(c, 1.0 + 4.0 * 14.0 / 25.0, 1.0 + 3.0 * 14.0 / 25.0))
+                && Line::new(coord! {x: 2.0, y: 2.0}, coord! {x: 2.0, y: 2.0}).closest_point(&Point::new(0.0, 0.0)) == Closest::Indeterminate;
+            if !ok {
+                fail("Line::closest_point differs from the clamped projection on a concrete instance".to_string());
+            }
+            println!("ok line closest point");
+        }
         _ => {
             eprintln!("unknown op {op}");
             std::process::exit(4);
